@@ -177,7 +177,8 @@ def run(ck):
     facts = ck.facts
     ck.decided('D1 name tables: from_qasm_name(qasm_name(k)) = k for every kind but UnknownGate, names equal the standard ones; the opaque prelude declares every gate name of the property with arity num_qubits() and one parameter exactly when to_qasm prints one',
                'D2 unsupported constructs are errors, supported ones are never dropped: every GateWriter method pushes a gate / installs the circuit on every Ok path or returns Err; from_qasm_parser propagates every error source with `?`',
-               'D3 Display for Circuit prints the register size from num_qubits() and every gate, in order, through Gate::to_qasm; to_qasm prints name, parameter from self.phase, and all qubit arguments')
+               'D3 Display for Circuit prints the register size from num_qubits() and every gate, in order, through Gate::to_qasm; to_qasm prints name, parameter from self.phase, and all qubit arguments',
+               'D4 exact rational multiples of pi are parsed on a float-free path guarded by the absence of a float part')
     ck.not_decided('phase printing/parsing exactness (decimal <-> rational values)', 'register layout and parsing proper (done by the external openqasm crate)',
                    'zero-gate circuits: the qubit count is only set by a callback the openqasm crate does not invoke for an empty program (observed, not reachable by a rule)')
     variants = rtable.enum_variants(facts, GT)
@@ -258,6 +259,23 @@ def run(ck):
     ck.floor('R-ERR-sources', len(tries), 3)
     ck.ob('R-ERR', 'from_qasm_parser/no-dropped-result', not dropped, ck.site('circuit::Circuit::from_qasm_parser', dropped[0]) if dropped else '',
           'a Result is dropped: %s' % (hir.pp(dropped[0])[:60] if dropped else ''))
+    # D4: exact multiples of pi are parsed exactly (no float on that path)
+    ppk = [k for k in facts['fns'] if k.endswith('::write_opaque::param_to_phase')]
+    if not ppk:
+        ck.violation('R-PATH', 'param_to_phase/anchor', 'circuit.rs', 'anchor-missing: param_to_phase')
+    else:
+        pf2 = ck.fn(ppk[0])
+        exact = False
+        for p2 in paths.return_paths(pf2):
+            guard = any(c[0] == 'cond' and c[2] and hir.strip(c[1]).get('k') == 'MethodCall' and hir.strip(c[1])['name'] == 'is_zero' and hir.strip(hir.strip(c[1])['recv']).get('name') == 'a' for c in p2.conds)
+            r = p2.ret
+            if guard and r is not None:
+                txt = hir.pp(r)
+                floaty = any(x.get('k') == 'Cast' and (x.get('ty') or '') in ('f32', 'f64') for x in hir.nodes(r)) or 'approximate_float' in txt or 'into_float' in txt
+                from_b = '.b.numer()' in txt and '.b.denom()' in txt
+                exact = exact or (from_b and not floaty)
+        ck.ob('R-PATH', 'param_to_phase/exact-pi-multiples', exact, ck.site(ppk[0]),
+              'a parameter that is an exact rational multiple of pi (no float part) must be turned into a phase from its numerator and denominator, without passing through a float')
     # D3
     df = ck.fn('<circuit::Circuit as std::fmt::Display>::fmt')
     h, l = display_structure(df)
